@@ -96,7 +96,8 @@ Extremes ==
 \* redirects whose Location is odd (accepted by one URI parser and refused by another, unterminated, empty ...),
 \* followed by a second redirect and a final response on the same stream: the follow-up calls must not panic
 OddLocations == {"http://b.test:99999/x", "http://[::1", "//", "http://a b/", "http:///x", "?", "#f", "http://", "http://b.test:/x",
-                 "HTTP://B.TEST/%zz", "http://b.test/\\x", "x:y", "/../../..", "http://b.test:80:80/"}
+                 "HTTP://B.TEST/%zz", "http://b.test/\\x", "x:y", "/../../..", "http://b.test:80:80/",
+                 "\"", "<", ">", "\"\"", "<>", ",", "'", "\"/x", "</x>", "a,b", "/x,http://c.test/y", "http://b.test//", "http://b.test/a?", "http://b.test.", "%", "%zz", "[", "]", "@", "http://@/", "http://:80/"}
 \* long Locations of obs-text bytes at every alignment (error texts that quote a Location must cope with any length)
 RECURSIVE RepStr(_, _)
 RepStr(x, n) == IF n = 0 THEN "" ELSE x \o RepStr(x, n - 1)
